@@ -1,6 +1,12 @@
 /-
   Property C01 — signed transactions are the specification wire format and recover to the signer.
   Model: FFS.Model.Tx (mirrors pkg/ethsigner/transaction.go). Spec: FFS.Spec.Tx (EIP-155 / EIP-1559 / EIP-2718).
+  * `build*_eq_spec`, `payload_*_eq_spec`, `v_forms`, `finalize_eip155_items` : the bytes that are signed and sent are
+        the specification's, for every transaction and chain id.
+  * **`recover_sign_1559`**, **`recover_sign_eip155`** : RecoverRawTransaction applied to what Sign produced returns the
+        signer's address, the fields that were signed and the payload that was signed — for every transaction, every
+        key in [1, n), every chain id in [0, 2^53] and every lawful curve — composing the RLP round trip (C06), the
+        shape validation of recovery (C10) and recover∘sign of the secp256k1 wrapper (C05).
 -/
 import FFS.Model.Tx
 import FFS.Props.C05
@@ -72,5 +78,300 @@ theorem finalize_eip155_items (t : Tx) (cid v r s : Int) :
         [wrapInt (updateEIP155 v cid).natAbs, wrapInt r.natAbs, wrapInt s.natAbs])) := by
   simp only [finalize, addEIP155, addSignature, buildLegacy_eq_spec]
   rfl
+
+/-! ### recover ∘ sign -/
+
+/-- what recovery reads back: every integer field present (nil was signed as 0), no legacy gas price -/
+def norm1559 (t : Tx) : Tx :=
+  { nonce := some (big t.nonce), tip := some (big t.tip), feeCap := some (big t.feeCap), gasLimit := some (big t.gasLimit),
+    to := t.to, value := some (big t.value), data := t.data, gasPrice := none }
+
+theorem itemInt_wrapInt (n : Nat) : itemInt (wrapInt n) = some n := by
+  simp [itemInt, wrapInt, fromBE_minBE]
+
+theorem isCanonInt_wrapInt (n : Nat) : isCanonInt (wrapInt n) = true := by
+  unfold wrapInt
+  cases h : minBE n with
+  | nil => rfl
+  | cons b t =>
+    simp only [isCanonInt]
+    have := minBE_head_ne_zero n b t h
+    simpa using this
+
+theorem itemBytes_wrapInt (n : Nat) : fromBE (itemBytes (wrapInt n)) = n := by
+  simp [itemBytes, wrapInt, fromBE_minBE]
+
+theorem bigInt64_small (n : Nat) (h : n < 2 ^ 63) : bigInt64 (n : Int) = n := by
+  have hi : isInt64 (n : Int) = true := by
+    simp only [isInt64, Bool.and_eq_true, decide_eq_true_eq]
+    have : ((2 ^ 63 : Nat) : Int) = (2 : Int) ^ 63 := by simp
+    omega
+  exact C05.bigInt64_of_isInt64 hi
+
+theorem isStr_wrapInt (n : Nat) : isStr (wrapInt n) = true := rfl
+
+theorem validate_ok (c n tp fc gl vl : Nat) (to : Option Bytes) (data : Bytes) (p r s : Nat)
+    (hto : isAddrOrEmpty (wrapAddress to) = true) :
+    validate1559 [wrapInt c, wrapInt n, wrapInt tp, wrapInt fc, wrapInt gl, wrapAddress to, wrapInt vl, .str data,
+      .list [], wrapInt p, wrapInt r, wrapInt s] 12 = .ok true := by
+  simp only [validate1559, e1559Validates, if_true, validTxScalars, e1559Ints, e1559IntsSigned, e1559Bytes,
+    e1559BytesSigned, e1559To, ge_iff_le, Nat.le_refl]
+  simp [isCanonInt_wrapInt, hto, isStr_wrapInt]
+  rfl
+
+/-- the signed EIP-1559 list, written out -/
+def signed1559 (t : Tx) (cid : Int) (p r s : Nat) : List Item :=
+  [wrapInt cid.natAbs, wrapInt (big t.nonce), wrapInt (big t.tip), wrapInt (big t.feeCap), wrapInt (big t.gasLimit),
+   wrapAddress t.to, wrapInt (big t.value), .str t.data, .list [], wrapInt p, wrapInt r, wrapInt s]
+
+theorem signed1559_eq (t : Tx) (cid : Int) (p r s : Nat) :
+    build1559 t cid ++ [wrapInt p, wrapInt r, wrapInt s] = signed1559 t cid p r s := rfl
+
+theorem itemAddr_wrapAddress (to : Option Bytes) (hto : ∀ a, to = some a → a.length = 20) :
+    itemAddr (wrapAddress to) = to ∧ isAddrOrEmpty (wrapAddress to) = true := by
+  cases hta : to with
+  | none => simp [wrapAddress, itemAddr, isAddrOrEmpty]
+  | some a => simp [wrapAddress, itemAddr, isAddrOrEmpty, hto a hta]
+
+theorem decode1559_signed (t : Tx) (cid : Int) (p r s : Nat) (hc : 0 ≤ cid) (hto : ∀ a, t.to = some a → a.length = 20)
+    (hsm : C06.Small (2 ^ 31) (.list (signed1559 t cid p r s))) :
+    decode1559 (UInt8.ofNat type1559 :: enc (.list (signed1559 t cid p r s))) cid min1559Signed =
+      .ok (signed1559 t cid p r s, norm1559 t) := by
+  have hdec : Decode (enc (.list (signed1559 t cid p r s))) =
+      .ok (some (.list (signed1559 t cid p r s)), (enc (.list (signed1559 t cid p r s))).length) := by
+    have := C06.decode_enc_append _ hsm []
+    simpa using this
+  have hb0 : ¬ ((UInt8.ofNat type1559).toNat ≠ type1559) := by decide
+  unfold decode1559
+  simp only []
+  rw [if_neg hb0, hdec]
+  simp only []
+  have hlen : ¬ ((signed1559 t cid p r s).length < min1559Signed) := by simp [signed1559, min1559Signed]
+  rw [if_neg hlen]
+  have hcid : ((cid.natAbs : Nat) : Int) = cid := by omega
+  have hchain : chainIdMatches (signed1559 t cid p r s) cid = true := by
+    simp [chainIdMatches, signed1559, itemInt_wrapInt, e1559ChainIdExact, hcid]
+  rw [hchain]
+  simp only [Bool.not_true, Bool.false_eq_true, if_false]
+  have hval : validate1559 (signed1559 t cid p r s) min1559Signed = .ok true :=
+    validate_ok _ _ _ _ _ _ _ _ _ _ _ (itemAddr_wrapAddress t.to hto).2
+  rw [hval]
+  simp only []
+  simp [signed1559, itemInt_wrapInt, norm1559, itemBytes, (itemAddr_wrapAddress t.to hto).1]
+
+theorem recoverCommon_ok (C : Curve) (tx : Tx) (msg : Bytes) (cid v : Int) (r s a : Bytes)
+    (h : Model.Secp.recover C { V := some v, R := some (fromBE r), S := some (fromBE s) } msg cid = .ok a) :
+    recoverCommon C tx msg cid v r s = .ok (a, tx, msg) := by
+  unfold recoverCommon
+  rw [h]
+
+/-- **An EIP-1559 transaction signed by key `k` recovers to `k`'s address, with the fields that were signed and the
+    payload that was signed** — for every transaction, key, chain id (0 ≤ id ≤ 2^53) and lawful curve; `to`, when
+    present, has 20 bytes; the signed list fits the decoder's size cap (2^31 bytes). -/
+theorem recover_sign_1559 (C : Curve) (hC : C.Lawful) (k : Nat) (hk : 1 ≤ k ∧ k < C.n) (t : Tx) (cid : Int)
+    (hc : 0 ≤ cid ∧ cid ≤ 2 ^ 53) (hto : ∀ a, t.to = some a → a.length = 20)
+    (hsm : ∀ p r s : Nat, C06.Small (2 ^ 31) (.list (signed1559 t cid p r s))) :
+    recoverRaw C (signTx C .eip1559 t k cid) cid = .ok (keyAddress C k, norm1559 t, payloadEIP1559 t cid) := by
+  obtain ⟨z, hz⟩ : ∃ z, z = Prim.keccak256 (payloadEIP1559 t cid) := ⟨_, rfl⟩
+  obtain ⟨v, hvd⟩ : ∃ v, v = (C.signCompact k z).1 := ⟨_, rfl⟩
+  obtain ⟨r, hrd⟩ : ∃ r, r = (C.signCompact k z).2.1 := ⟨_, rfl⟩
+  obtain ⟨s, hsd⟩ : ∃ s, s = (C.signCompact k z).2.2 := ⟨_, rfl⟩
+  have hv : v = 27 ∨ v = 28 := by rw [hvd]; exact hC.sign_v k z
+  have hsig : signDirect C k z = { V := some (v : Int), R := some (r : Int), S := some (s : Int) } := by
+    rw [hvd, hrd, hsd]; rfl
+  have hsign : sign C k (payloadEIP1559 t cid) = { V := some (v : Int), R := some (r : Int), S := some (s : Int) } := by
+    unfold sign; rw [← hz]; exact hsig
+  have hv' : updateEIP2930 (v : Int) = (v : Int) - 27 := (v_forms (v : Int) cid (by omega)).2
+  have hp : ((v : Int) - 27).natAbs = v - 27 := by omega
+  have hraw : signTx C .eip1559 t k cid = UInt8.ofNat type1559 :: enc (.list (signed1559 t cid (v - 27) r s)) := by
+    simp only [signTx, payload, hsign, finalize, Option.getD_some, hv', addSignature, hp, Int.natAbs_natCast,
+      signed1559_eq]
+  rw [hraw]
+  have hb0 : (UInt8.ofNat type1559).toNat = 2 := by decide
+  unfold recoverRaw
+  simp only [hb0, show rawIsLegacy 2 = false by decide, show rawIs1559 2 = true by decide, Bool.false_eq_true, if_false, if_true]
+  unfold recover1559
+  rw [decode1559_signed t cid (v - 27) r s hc.1 hto (hsm _ _ _)]
+  simp only []
+  have hg9 : itemInt ((signed1559 t cid (v - 27) r s).getD 9 (.list [])) = some (v - 27) := by
+    simp [signed1559, itemInt_wrapInt]
+  rw [hg9]
+  simp only []
+  have htake : (signed1559 t cid (v - 27) r s).take 9 = build1559 t cid := by simp [signed1559, build1559]
+  have hr10 : fromBE (itemBytes ((signed1559 t cid (v - 27) r s).getD 10 (.list []))) = r := by
+    simp [signed1559, itemBytes_wrapInt]
+  have hs11 : fromBE (itemBytes ((signed1559 t cid (v - 27) r s).getD 11 (.list []))) = s := by
+    simp [signed1559, itemBytes_wrapInt]
+  have hb64 : bigInt64 ((v - 27 : Nat) : Int) = (v : Int) - 27 := by
+    rw [bigInt64_small (v - 27) (by omega)]; omega
+  rw [htake]
+  have hmsg : UInt8.ofNat type1559 :: enc (.list (build1559 t cid)) = payloadEIP1559 t cid := by
+    simp only [payloadEIP1559]
+  rw [hmsg]
+  have hrec := (C05.recover_sign_all_conventions C hC k hk z cid hc).2.1
+  simp only [hsig, ← hvd, hv'] at hrec
+  apply recoverCommon_ok
+  rw [hr10, hs11, hb64]
+  unfold Model.Secp.recover
+  rw [← hz]
+  exact hrec
+
+
+/-- what legacy recovery reads back -/
+def normLegacy (t : Tx) : Tx :=
+  { nonce := some (big t.nonce), gasPrice := some (big t.gasPrice), gasLimit := some (big t.gasLimit),
+    to := t.to, value := some (big t.value), data := t.data, tip := none, feeCap := none }
+
+/-- the signed legacy list, written out -/
+def signedLegacy (t : Tx) (V r s : Nat) : List Item :=
+  [wrapInt (big t.nonce), wrapInt (big t.gasPrice), wrapInt (big t.gasLimit), wrapAddress t.to, wrapInt (big t.value),
+   .str t.data, wrapInt V, wrapInt r, wrapInt s]
+
+theorem signedLegacy_eq (t : Tx) (cid : Int) (V r s : Nat) :
+    (addEIP155 (buildLegacy t) cid).take 6 ++ [wrapInt V, wrapInt r, wrapInt s] = signedLegacy t V r s := rfl
+
+theorem rlp_length_pos (t : Item) : 0 < (Spec.Rlp.rlp t).length := by
+  have := rlp_ne_nil t
+  cases h : Spec.Rlp.rlp t with
+  | nil => exact absurd h this
+  | cons a b => simp
+
+theorem rlpSeq_length_ge : ∀ (xs : List Item), xs.length ≤ (Spec.Rlp.rlpSeq xs).length
+  | [] => by simp [Spec.Rlp.rlpSeq]
+  | x :: xs => by
+    rw [Spec.Rlp.rlpSeq]
+    have := rlp_length_pos x
+    have := rlpSeq_length_ge xs
+    simp; omega
+
+theorem minBE_len_pos (n : Nat) (h : n ≠ 0) : 0 < (minBE n).length := minBE_length_pos h
+
+/-- the first byte of the encoding of a list of at least seven items selects the legacy branch -/
+theorem legacy_head (xs : List Item) (h7 : 7 ≤ xs.length) (hsm : C06.Small (2 ^ 31) (.list xs)) :
+    ∃ b0 rest, enc (.list xs) = b0 :: rest ∧ rawIsLegacy b0.toNat = true := by
+  rw [C06.enc_eq_spec _ (C06.small_mono (by decide) _ hsm)]
+  have hlen := rlpSeq_length_ge xs
+  have hsz : (Spec.Rlp.rlpSeq xs).length < 2 ^ 31 := by
+    simp only [C06.Small] at hsm; exact hsm.1
+  rw [Spec.Rlp.rlp]
+  unfold Spec.Rlp.Rl
+  split
+  · rename_i h56
+    refine ⟨_, _, rfl, ?_⟩
+    have : (UInt8.ofNat (192 + (Spec.Rlp.rlpSeq xs).length)).toNat = 192 + (Spec.Rlp.rlpSeq xs).length := by
+      simp [UInt8.toNat_ofNat]; omega
+    simp [rawIsLegacy, this]; omega
+  · rename_i h56
+    refine ⟨_, _, rfl, ?_⟩
+    have hpos : 0 < (minBE (Spec.Rlp.rlpSeq xs).length).length := minBE_length_pos (by omega)
+    have hle : (minBE (Spec.Rlp.rlpSeq xs).length).length ≤ 4 :=
+      minBE_length_le (w := 4) (by
+        have : (256 : Nat) ^ 4 = 2 ^ 32 := by decide
+        omega)
+    have : (UInt8.ofNat (247 + (minBE (Spec.Rlp.rlpSeq xs).length).length)).toNat = 247 + (minBE (Spec.Rlp.rlpSeq xs).length).length := by
+      simp [UInt8.toNat_ofNat]; omega
+    simp [rawIsLegacy, this]; omega
+
+theorem validateLegacy_ok (n gp gl vl : Nat) (to : Option Bytes) (data : Bytes) (V r s : Nat)
+    (hto : isAddrOrEmpty (wrapAddress to) = true) :
+    validateLegacy [wrapInt n, wrapInt gp, wrapInt gl, wrapAddress to, wrapInt vl, .str data, wrapInt V, wrapInt r, wrapInt s] = .ok true := by
+  simp only [validateLegacy, legacyValidates, if_true, validTxScalars, legacyInts, legacyTo, legacyBytes]
+  simp [isCanonInt_wrapInt, hto, isStr_wrapInt]
+  all_goals rfl
+
+theorem vNotLegacy_155 (cid v : Int) (h0 : 0 ≤ cid) (hv : v = 27 ∨ v = 28) :
+    vNotLegacy (35 + 2 * cid + (v - 27)) = true := by
+  simp only [vNotLegacy, Bool.and_eq_true, decide_eq_true_eq]; omega
+
+theorem v155_back (cid v : Int) : v155ToLegacy (35 + 2 * cid + (v - 27)) cid = v := by
+  simp only [v155ToLegacy]; omega
+
+theorem legacyTx_eq (t : Tx) (V r s : Nat) (hto : ∀ a, t.to = some a → a.length = 20) :
+    Tx.mk (itemInt ((signedLegacy t V r s).getD 0 (.list []))) (itemInt ((signedLegacy t V r s).getD 1 (.list []))) none none
+      (itemInt ((signedLegacy t V r s).getD 2 (.list []))) (itemAddr ((signedLegacy t V r s).getD 3 (.list [])))
+      (itemInt ((signedLegacy t V r s).getD 4 (.list []))) (itemBytes ((signedLegacy t V r s).getD 5 (.list []))) = normLegacy t := by
+  simp [signedLegacy, itemInt_wrapInt, normLegacy, itemBytes, (itemAddr_wrapAddress t.to hto).1]
+
+/-- **A legacy EIP-155 transaction signed by key `k` recovers to `k`'s address, with the fields and the payload that
+    were signed** — every transaction, key, chain id in [0, 2^53], lawful curve. -/
+theorem recover_sign_eip155 (C : Curve) (hC : C.Lawful) (k : Nat) (hk : 1 ≤ k ∧ k < C.n) (t : Tx) (cid : Int)
+    (hc : 0 ≤ cid ∧ cid ≤ 2 ^ 53) (hto : ∀ a, t.to = some a → a.length = 20)
+    (hsm : ∀ V r s : Nat, C06.Small (2 ^ 31) (.list (signedLegacy t V r s))) :
+    recoverRaw C (signTx C .eip155 t k cid) cid = .ok (keyAddress C k, normLegacy t, payloadLegacyEIP155 t cid) := by
+  obtain ⟨z, hz⟩ : ∃ z, z = Prim.keccak256 (payloadLegacyEIP155 t cid) := ⟨_, rfl⟩
+  obtain ⟨v, hvd⟩ : ∃ v, v = (C.signCompact k z).1 := ⟨_, rfl⟩
+  obtain ⟨r, hrd⟩ : ∃ r, r = (C.signCompact k z).2.1 := ⟨_, rfl⟩
+  obtain ⟨s, hsd⟩ : ∃ s, s = (C.signCompact k z).2.2 := ⟨_, rfl⟩
+  have hv : v = 27 ∨ v = 28 := by rw [hvd]; exact hC.sign_v k z
+  have hsig : signDirect C k z = { V := some (v : Int), R := some (r : Int), S := some (s : Int) } := by
+    rw [hvd, hrd, hsd]; rfl
+  have hsign : sign C k (payloadLegacyEIP155 t cid) = { V := some (v : Int), R := some (r : Int), S := some (s : Int) } := by
+    unfold sign; rw [← hz]; exact hsig
+  have hV : updateEIP155 (v : Int) cid = 35 + 2 * cid + ((v : Int) - 27) := (v_forms (v : Int) cid (by omega)).1
+  obtain ⟨V, hVd⟩ : ∃ V : Nat, (V : Int) = 35 + 2 * cid + ((v : Int) - 27) := ⟨(35 + 2 * cid + ((v : Int) - 27)).toNat, by omega⟩
+  have hVabs : (updateEIP155 (v : Int) cid).natAbs = V := by rw [hV, ← hVd]; simp
+  have hraw : signTx C .eip155 t k cid = enc (.list (signedLegacy t V r s)) := by
+    simp only [signTx, payload, hsign, finalize, Option.getD_some, addSignature, hVabs, Int.natAbs_natCast, signedLegacy_eq]
+  rw [hraw]
+  obtain ⟨b0, rest, hhead, hleg⟩ := legacy_head (signedLegacy t V r s) (by simp [signedLegacy]) (hsm V r s)
+  unfold recoverRaw
+  rw [hhead]
+  simp only [hleg, if_true]
+  rw [← hhead]
+  -- the legacy path
+  have hdec : Decode (enc (.list (signedLegacy t V r s))) =
+      .ok (some (.list (signedLegacy t V r s)), (enc (.list (signedLegacy t V r s))).length) := by
+    have := C06.decode_enc_append _ (hsm V r s) []
+    simpa using this
+  unfold recoverLegacy
+  rw [hdec]
+  simp only []
+  have hshort : legacyTooShort (signedLegacy t V r s).length = false := by simp [signedLegacy, legacyTooShort]
+  rw [hshort]
+  simp only [Bool.false_eq_true, if_false]
+  have hval : validateLegacy (signedLegacy t V r s) = .ok true :=
+    validateLegacy_ok _ _ _ _ _ _ _ _ _ (itemAddr_wrapAddress t.to hto).2
+  rw [hval]
+  simp only []
+  have hg6 : itemInt ((signedLegacy t V r s).getD 6 (.list [])) = some V := by simp [signedLegacy, itemInt_wrapInt]
+  rw [hg6]
+  simp only []
+  have e53 : (2 : Int) ^ 53 = 9007199254740992 := by decide
+  have e63 : (2 : Nat) ^ 63 = 9223372036854775808 := by decide
+  have hVlt : V < 2 ^ 63 := by
+    rw [e63]
+    have h1 := hc.2
+    rw [e53] at h1
+    omega
+  have hb64 : bigInt64 (V : Int) = V := bigInt64_small V hVlt
+  rw [hb64]
+  have hnl : vNotLegacy (V : Int) = true := by
+    rw [hVd]; exact vNotLegacy_155 cid v hc.1 (by rcases hv with rfl | rfl <;> simp)
+  rw [hnl]
+  simp only [if_true]
+  have hv2 : wrap64 (v155ToLegacy (V : Int) cid) = (v : Int) := by
+    have : v155ToLegacy (V : Int) cid = v := by rw [hVd]; exact v155_back cid v
+    rw [this]
+    rcases hv with rfl | rfl <;> decide
+  rw [hv2]
+  have hnl2 : vNotLegacy (v : Int) = false := by
+    simp only [vNotLegacy]; rcases hv with rfl | rfl <;> decide
+  rw [hnl2]
+  simp only [Bool.false_eq_true, if_false]
+  have htake : (signedLegacy t V r s).take 6 = buildLegacy t := by simp [signedLegacy, buildLegacy]
+  rw [htake]
+  have hmsg : enc (.list (addEIP155 (buildLegacy t) cid)) = payloadLegacyEIP155 t cid := by simp only [payloadLegacyEIP155]
+  rw [hmsg]
+  have hr7 : fromBE (itemBytes ((signedLegacy t V r s).getD 7 (.list []))) = r := by simp [signedLegacy, itemBytes_wrapInt]
+  have hs8 : fromBE (itemBytes ((signedLegacy t V r s).getD 8 (.list []))) = s := by simp [signedLegacy, itemBytes_wrapInt]
+  have hrec := (C05.recover_sign_all_conventions C hC k hk z cid hc).1
+  simp only [hsig] at hrec
+  rw [legacyTx_eq t V r s hto]
+  apply recoverCommon_ok
+  rw [hr7, hs8]
+  unfold Model.Secp.recover
+  rw [← hz]
+  exact hrec
+
 
 end FFS.Props.C01
